@@ -234,7 +234,7 @@ Theorem C13_source_drain_bounds : forall len cap base s e,
 Proof. exact src_drain_bounds_ok. Qed.
 
 (* the statements around those expressions in insert / remove are the ones the model's steps stand for *)
-Theorem C13_source_frames : forallb snd src_frames_vec = true /\ List.length src_frames_vec = 11%nat.
+Theorem C13_source_frames : forallb snd src_frames_vec = true /\ List.length src_frames_vec = 20%nat.
 Proof. split; [exact src_frames_vec_ok | reflexivity]. Qed.
 
 Theorem C13_source_drain_checks : forall len cap base s e a b,
@@ -279,6 +279,12 @@ Theorem C13_source_push_pop_append : forall len cap base x count other, base + l
 Proof. exact src_vec_push_pop_append_ok. Qed.
 Print Assumptions C13_source_push_pop_append.
 
+Theorem C13_source_drain_filter_drop : forall old_len del, del <= old_len ->
+  call_fn src_fns [("self"%string, VRec [("old_len"%string, VN old_len); ("del"%string, VN del)])] "vec_drain_filter_drop_new_len" []
+  = RustSem.Ret (VN (old_len - del)).
+Proof. exact src_vec_drain_filter_drop_ok. Qed.
+Print Assumptions C13_source_drain_filter_drop.
+
 (* ---- into_iter and clone (VecIter.v) ---- *)
 From BV Require Import VecIter.
 Close Scope string_scope.
@@ -295,3 +301,8 @@ Theorem C13_clone : forall e v c next v',
 Proof. exact clone_spec. Qed.
 Print Assumptions C13_into_iter.
 Print Assumptions C13_clone.
+
+(* the conversions that give the buffer away: the slice is the contents, in order; nothing is dropped *)
+Theorem C13_into_slice : forall e v c, repr e v c -> into_slice v = (c, no_eff).
+Proof. exact into_slice_spec. Qed.
+Print Assumptions C13_into_slice.
